@@ -350,6 +350,21 @@ impl JobDemandDimension for Dimensions {
     }
 }
 
+/// Verification-only accessor (never compiled in normal builds): exposes the crate-private load caches to the native
+/// replay binary under /verif.
+#[cfg(reinterpretcat_vrp_verif)]
+pub fn verif_capacity_caches<T: LoadOps>(route_ctx: &RouteContext) -> Vec<(Option<T>, Option<T>, Option<T>)> {
+    (0..route_ctx.route().tour.total())
+        .map(|idx| {
+            (
+                route_ctx.state().get_current_capacity_at::<T>(idx).copied(),
+                route_ctx.state().get_max_past_capacity_at::<T>(idx).copied(),
+                route_ctx.state().get_max_future_capacity_at::<T>(idx).copied(),
+            )
+        })
+        .collect()
+}
+
 #[cfg(kani)]
 #[path = "/verif/kani/vrp-core/capacity_proofs.rs"]
 mod verif_kani_proofs;
